@@ -3,6 +3,7 @@ package e2
 import (
 	"crypto/sha256"
 	"fmt"
+	"hash"
 	"strings"
 
 	"github.com/bronlabs/bron-crypto/pkg/base"
@@ -47,6 +48,10 @@ type dklsResult struct {
 	PK    sG
 }
 
+// dklsHash is the hash of the ECDSA suite used by the DKLs23 runs of the current case (a digest longer
+// than the group order exercises the leftmost-bits truncation of ecdsa.DigestToScalar).
+var dklsHash func() hash.Hash = sha256.New
+
 // runDkls23 deals a key with the trusted dealer and runs rounds 1–4 of every cosigner of `quorum`.
 func runDkls23(env *SymEnv, tag string, pol Policy, quorum []sharing.ID, msg []byte, tamper *dklsTamper) (*dklsResult, error) {
 	as, err := pol.Build()
@@ -68,7 +73,7 @@ func runDkls23(env *SymEnv, tag string, pol Policy, quorum []sharing.ID, msg []b
 		shards[id] = sh
 		res.PK = bs.PublicKeyValue()
 	}
-	suite, err := ecdsa.NewSuite[sG, sF, sF](group, sha256.New)
+	suite, err := ecdsa.NewSuite[sG, sF, sF](group, dklsHash)
 	if err != nil {
 		return nil, err
 	}
@@ -213,8 +218,10 @@ func c01Dkls23(env *SymEnv, pol Policy, quorum []sharing.ID, msg []byte) {
 	if !env.Check("C01.dkls23/rx-ok", err == nil, fmt.Sprint(err)) {
 		return
 	}
-	digest := sha256.Sum256(msg)
-	m, err := ecdsa.DigestToScalar[sF](f, digest[:])
+	hh := dklsHash()
+	hh.Write(msg)
+	digest := hh.Sum(nil)
+	m, err := ecdsa.DigestToScalar[sF](f, digest)
 	if !env.Check("C01.dkls23/digest-ok", err == nil, fmt.Sprint(err)) {
 		return
 	}
@@ -226,6 +233,7 @@ func c01Dkls23(env *SymEnv, pol Policy, quorum []sharing.ID, msg []byte) {
 
 // c04Dkls23: one cosigner of a DKLs23 (bbot) signing deviates by a symbolic offset δ ≠ 0.
 func c04Dkls23(env *SymEnv, pol Policy, quorum []sharing.ID, deviator sharing.ID, kind string) {
+	dklsHash = sha256.New
 	env.AssumeDrawsNonZero()
 	env.R.SetGenericNonIdentity(true)
 	f := env.Field()
